@@ -254,7 +254,7 @@ def run(ctx):
         last = b["steps"][-1]
         ops = [x["op"] for x in b["steps"]]
         if (last["op"] == "call" and "d" in last.get("ord", []) and ops.count("tick") == 1 and effective_ticks(b) == 1
-                and not any(set("tk") & set(x.get("ord", [])) for x in b["steps"])):
+                and not set("tk") & set(last.get("ord", []))):
             pos = last["ord"].index("d")
             if 0 < pos < len(last["ord"]) - 1:
                 b["flap"] = True
